@@ -11,11 +11,16 @@
 (*                                                                         *)
 (* One record per emitted program:                                         *)
 (*   prog    [vars, cons]        the exported program                      *)
-(*   bits    [[var, neg]]        pattern bit i is carried by variable var  *)
-(*                               (negated when neg)                        *)
+(*   bits    [[var, neg, isint]] pattern digit i is carried by variable    *)
+(*                               var (negated when neg; integer label when *)
+(*                               isint); base = number of values per digit *)
 (*   fixed   [[var, val]]        other caller variables pinned             *)
 (*   expects Seq(BOOLEAN)        definitional verdict per pattern number+1 *)
 (*   status  "ok" | "exc"        whether the helper call itself raised     *)
+(*   outs    [[vars, masks]]     arrays returned by the helper: the ids of *)
+(*                               their variables and, per pattern, the set *)
+(*                               (as a bit mask) of positions that must be *)
+(*                               true in EVERY satisfying assignment       *)
 (***************************************************************************)
 EXTENDS CspSem, Json, IOUtils, TLCExt
 
@@ -26,12 +31,17 @@ Init == shard \in 0 .. 63 /\ t = 0
 Next == t = 0 /\ t' \in {i \in DOMAIN Recs : i % 64 = shard} /\ shard' = shard
 
 R == Recs[t]
-Bit(p, i) == (p \div (2 ^ i)) % 2 = 1
+(* pattern number p in base R.base: digit i is the value of the i-th caller variable *)
+(* (boolean flags: base 2, digit 1 = true, possibly negated; labels: the digit itself) *)
+Digit(p, i) == (p \div (R.base ^ i)) % R.base
 
 FixCons(p) ==
     [i \in DOMAIN R.bits |->
-        [op |-> "IFF", args |-> <<[op |-> "VAR", id |-> R.bits[i].var],
-                                  [op |-> "BOOL", val |-> (Bit(p, i - 1) # R.bits[i].neg)]>>]]
+        IF R.bits[i].isint
+        THEN [op |-> "EQ", args |-> <<[op |-> "VAR", id |-> R.bits[i].var],
+                                      [op |-> "INT", val |-> Digit(p, i - 1)]>>]
+        ELSE [op |-> "IFF", args |-> <<[op |-> "VAR", id |-> R.bits[i].var],
+                                       [op |-> "BOOL", val |-> ((Digit(p, i - 1) = 1) # R.bits[i].neg)]>>]]
     \o [i \in DOMAIN R.fixed |->
         [op |-> "IFF", args |-> <<[op |-> "VAR", id |-> R.fixed[i].var],
                                   [op |-> "BOOL", val |-> R.fixed[i].val]>>]]
@@ -43,13 +53,32 @@ SatPattern(mv, p) ==
     IN  GroundOK(q, mv2) /\ SatFrom(q, mv2, 1, <<>>)
 
 NP == Len(R.expects)
+
+ModelsPattern(mv, p) ==
+    LET q == [vars |-> R.prog.vars, cons |-> R.prog.cons \o FixCons(p)]
+        mv2 == mv \o FixMV
+    IN  IF GroundOK(q, mv2) THEN ModelsFrom(q, mv2, 1, <<>>) ELSE {}
+
+OutMask(o, m) == LET RECURSIVE Sum(_)
+                     Sum(i) == IF i > Len(o.vars) THEN 0
+                               ELSE (IF m[o.vars[i] + 1] THEN 2 ^ (i - 1) ELSE 0) + Sum(i + 1)
+                 IN Sum(1)
+OutsOK(mv, p) == \A m \in ModelsPattern(mv, p) :
+                    \A j \in DOMAIN R.outs : OutMask(R.outs[j], m) = R.outs[j].masks[p + 1]
+BadOuts(mv) == {p \in 0 .. NP - 1 : R.expects[p + 1] /\ ~OutsOK(mv, p)}
+
 BadPatterns(mv) == {p \in 0 .. NP - 1 : SatPattern(mv, p) # R.expects[p + 1]}
 
 Verdict ==
     IF R.status # "ok" THEN [verdict |-> "emit:helper-raised-" \o R.exc, pattern |-> -1, nbad |-> 0]
     ELSE IF ~WellTyped(R.prog) THEN [verdict |-> "emit:ill-typed-program", pattern |-> -1, nbad |-> 0]
     ELSE LET mv == MaxVars(R.prog)  bad == BadPatterns(mv) IN
-         IF bad = {} THEN [verdict |-> "ok", pattern |-> -1, nbad |-> 0]
+         IF bad = {} THEN
+            (IF R.outs = <<>> THEN [verdict |-> "ok", pattern |-> -1, nbad |-> 0]
+             ELSE LET bo == BadOuts(mv) IN
+                  IF bo = {} THEN [verdict |-> "ok", pattern |-> -1, nbad |-> 0]
+                  ELSE [verdict |-> "emit:returned-array-differs-from-the-definition",
+                        pattern |-> CHOOSE x \in bo : \A y \in bo : x <= y, nbad |-> Cardinality(bo)])
          ELSE LET p == CHOOSE x \in bad : \A y \in bad : x <= y IN
               [verdict |-> IF R.expects[p + 1] THEN "emit:rejects-a-pattern-the-definition-admits"
                                                ELSE "emit:admits-a-pattern-the-definition-rejects",
